@@ -382,6 +382,52 @@ fn gen_script(rng: &mut Rng, len: usize, max_lines: usize) -> Vec<String> {
     v
 }
 
+pub struct Prepared {
+    pub parsed: Vec<UnOptCode>,
+    pub path: Path,
+    pub script: Vec<String>,
+    pub no_final_newline: bool,
+    pub model_encoding: bool,
+    pub cut: bool,
+}
+
+/// Everything that is decided before the debugger runs (shared by SimWorld and RealWorld).
+pub fn prepare(sc: &Scenario) -> Result<Prepared, Result<&'static str, Violation>> {
+    let parsed = parse_checked(sc).map_err(Err)?;
+    let pf = reflang::preflight(&sc.cmds, &[], sc.budget, sc.cap_bits, false);
+    if pf.m.probes[probe::READ_LINE] + pf.m.probes[probe::READ_EOF] > 0 {
+        return Err(Ok("program reads input"));
+    }
+    let mut window = pf.safe_steps;
+    let mut model_encoding = false;
+    match &pf.halt {
+        Halt::Ended(reflang::End::End) | Halt::Ended(reflang::End::Exit(_)) => window += 1,
+        Halt::Ended(reflang::End::Encoding(_)) => {
+            window += 1;
+            model_encoding = true;
+        }
+        _ => {}
+    }
+    let path = real_path(&parsed, window);
+    if path.steps.iter().any(|s| matches!(s.end, StepEnd::Read | StepEnd::Panic(_))) {
+        return Err(Ok("real interpreter path not usable (read or panic): C01's business"));
+    }
+    let dry = drive(&sc.script, &parsed, &path, &sc.file_name, b"", None, 4000);
+    let mut script = sc.script.clone();
+    let mut cut = false;
+    if let DbgEnd::Cut(i) = dry.end {
+        script.truncate(i);
+        cut = true;
+    }
+    let mut no_final_newline = sc.no_final_newline;
+    if no_final_newline && script.last().map_or(false, |l| l.is_empty()) {
+        // an empty last line without terminator is no line at all: the line before it ends with its terminator
+        script.pop();
+        no_final_newline = false;
+    }
+    Ok(Prepared { parsed, path, script, no_final_newline, model_encoding, cut })
+}
+
 impl Property for C11 {
     fn id(&self) -> &'static str {
         "C11"
@@ -436,48 +482,22 @@ impl Property for C11 {
     }
     fn run(&self, sc: &Scenario) -> RunOut {
         let mut out = RunOut::default();
-        let parsed = match parse_checked(sc) {
+        let pr = match prepare(sc) {
             Ok(p) => p,
-            Err(v) => {
+            Err(Ok(reason)) => {
+                out.skipped = Some(reason);
+                return out;
+            }
+            Err(Err(v)) => {
                 out.violation = Some(v);
                 return out;
             }
         };
-        // pre-flight with the reference model: input-free, values small
-        let pf = reflang::preflight(&sc.cmds, &[], sc.budget, sc.cap_bits, false);
-        if pf.m.probes[probe::READ_LINE] + pf.m.probes[probe::READ_EOF] > 0 {
-            out.skipped = Some("program reads input");
-            return out;
-        }
-        let mut window = pf.safe_steps;
-        let mut model_encoding = false;
-        match &pf.halt {
-            Halt::Ended(reflang::End::End) | Halt::Ended(reflang::End::Exit(_)) => window += 1,
-            Halt::Ended(reflang::End::Encoding(_)) => {
-                window += 1;
-                model_encoding = true;
-            }
-            _ => {}
-        }
-        let path = real_path(&parsed, window);
-        if path.steps.iter().any(|s| matches!(s.end, StepEnd::Read | StepEnd::Panic(_))) {
-            out.skipped = Some("real interpreter path not usable (read or panic): C01's business");
-            return out;
-        }
-        let file = sc.file_name.clone();
-        // dry run decides where the script must be cut to stay inside the window
-        let dry = drive(&sc.script, &parsed, &path, &file, b"", None, 4000);
-        let mut script = sc.script.clone();
-        if let DbgEnd::Cut(i) = dry.end {
-            script.truncate(i);
+        if pr.cut {
             out.add("script_cut_at_window", 1);
         }
-        let mut no_final_newline = sc.no_final_newline;
-        if no_final_newline && script.last().map_or(false, |l| l.is_empty()) {
-            // an empty last line without terminator is no line at all: the line before it ends with its terminator
-            script.pop();
-            no_final_newline = false;
-        }
+        let (parsed, path, script, no_final_newline, model_encoding) = (pr.parsed, pr.path, pr.script, pr.no_final_newline, pr.model_encoding);
+        let file = sc.file_name.clone();
         let dry = drive(&script, &parsed, &path, &file, b"", None, 4000);
         // the real debugger
         let dir = sim::scratch_dir();
@@ -564,6 +584,68 @@ impl Property for C11 {
             out.violation = Some(Violation::new("stderr", "nothing on the process's stderr", truncate(&String::from_utf8_lossy(&world.err), 300)));
         }
         out
+    }
+    fn post(&self, tier: Tier, seed: u64, stats: &mut crate::runner::Stats) -> Option<(Scenario, Violation)> {
+        // RealWorld: the release binary's `debug` sub-command with the script on a real pipe
+        let bin = match crate::real::binary() {
+            Ok(b) => b,
+            Err(e) => {
+                println!("HARNESS-ERROR: {}", e);
+                std::process::exit(2);
+            }
+        };
+        let n = match tier {
+            Tier::Quick => 250,
+            Tier::Thorough => 20_000,
+        };
+        let dir = sim::scratch_dir().join("c11real");
+        std::fs::create_dir_all(&dir).expect("mkdir");
+        let (spawned, bad) = crate::runner::par_find(n, |i| {
+            let sc = crate::runner::make_scenario(self, seed, i, tier);
+            let pr = match prepare(&sc) {
+                Ok(p) => p,
+                Err(_) => return (0, None),
+            };
+            let d = sim::scratch_dir().join("c11real");
+            std::fs::create_dir_all(&d).expect("mkdir");
+            let fpath = d.join(&sc.file_name);
+            std::fs::write(&fpath, sc.file_content()).expect("write");
+            let stdin = script_bytes(&pr.script, pr.no_final_newline, sc.knob("crlf") == 1);
+            let args: Vec<String> = vec!["debug".into(), "--color".into(), "never".into(), fpath.to_string_lossy().into_owned()];
+            let chunks = crate::real::chunks_from_plan(&sc.plan, 64);
+            let r = crate::real::run(&bin, &args, None, &stdin, &chunks, std::time::Duration::from_secs(60)).expect("spawn");
+            let res = drive(&pr.script, &pr.parsed, &pr.path, &sc.file_name, b"", Some(&r.stdout), 4000);
+            let want_status = match &res.end {
+                DbgEnd::ProgramExit(c) => *c,
+                DbgEnd::EncodingError => 1,
+                _ => 0,
+            };
+            let mut v = None;
+            if r.timed_out || r.signal.is_some() || r.status == Some(101) {
+                v = Some(Violation::new("real-crash", "the debugger never crashes", format!("{} ; stderr {:?} ; script {:?}", r.describe(), truncate(&String::from_utf8_lossy(&r.stderr), 300), pr.script)));
+            } else if let Some(x) = res.violation {
+                v = Some(Violation::new(&format!("real-{}", x.clause), x.expected, x.observed));
+            } else if r.status != Some(want_status) {
+                v = Some(Violation::new("real-ending", format!("status {}", want_status), r.describe()));
+            } else if res.end != DbgEnd::EncodingError && (res.pos != r.stdout.len() || !r.stderr.is_empty()) {
+                v = Some(Violation::new(
+                    "real-extra-output",
+                    "nothing after the last expected piece, empty stderr",
+                    format!("stdout tail {:?} ; stderr {:?}", truncate(&String::from_utf8_lossy(&r.stdout[res.pos.min(r.stdout.len())..]), 200), truncate(&String::from_utf8_lossy(&r.stderr), 200)),
+                ));
+            }
+            if let Some(mut v) = v {
+                v.world = "real";
+                let mut s = sc.clone();
+                s.script = pr.script.clone();
+                return (1, Some((s, v)));
+            }
+            (1, None)
+        });
+        let _ = std::fs::remove_dir_all(&dir);
+        stats.extra.push(("realworld_spawns".into(), J::Int(spawned as i64)));
+        stats.extra.push(("realworld_note".into(), J::str("release binary `hyeong debug --color never FILE`, script on a real pipe in planned write sizes, same transcript walk; no SIGINT in RealWorld")));
+        bad
     }
     fn components(&self) -> J {
         J::obj()
